@@ -68,3 +68,46 @@ def nar_strict2(f):
             return S.NAR
         return f(a, b)
     return g
+
+
+def run_points(ctx, prog, rule, label, path, pty, points, spec, gargs=None, key_label=None, mkargs=None, out_bits=None):
+    """singleton cells given as explicit operand tuples (probes): constant propagation through the MIR, result compared with the exact
+    specification.  Returns the number of points decided."""
+    from interp import Interp, site_key, entry_label
+    from rules_routing import result_int
+    I = Interp(prog, max_steps=200000)
+    n = 0
+    for pt in points:
+        args = mkargs(pt) if mkargs else [posit_arg(pty, x, x, i) for i, x in enumerate(pt)]
+        try:
+            out = I.run(path, args, gargs or {})
+        except Exception as ex:
+            ctx.count('probe_points_unsupported')
+            continue
+        want = spec(list(pt))
+        if want is None:
+            continue
+        cell = 'x'.join('{%#x}' % x for x in pt)
+        if out.kind == 'return':
+            r = result_int(out.value)
+            if r is None or not r.is_const():
+                ctx.count('probe_points_undecided')
+                continue
+            n += 1
+            ob = out_bits or pty.bits
+            if r.uval() != want & mask(ob):
+                ctx.finding(rule, key_label or label, ('cell=' + cell) if not key_label else 'values',
+                            '%son cell %s the function returns %#x but the specification gives %#x' % ((label + ': ') if key_label else '', cell, r.uval(), want & mask(ob)),
+                            {'function': path, 'witness': [hex(x) for x in pt]})
+        elif out.kind in ('panic', 'budget'):
+            n += 1
+            site = getattr(out, 'site', None)
+            if out.kind == 'panic' and site:
+                ctx.finding('PANIC', *site_key(site), '%s at %s: reached on cell %s of %s; the operation does not return in an overflow-checked build' % (out.value, out.where, cell, label),
+                            {'function': path, 'entry': label}, alt=('PANIC@', entry_label(label), site_key(site)[1]))
+            else:
+                ctx.finding(rule, key_label or label, 'cell=' + cell, 'on cell %s the function does not return: %s %s at %s' % (cell, out.kind, out.value, out.where), {'function': path})
+        else:
+            ctx.count('probe_points_undecided')
+    ctx.count('probe_points', n)
+    return n
